@@ -429,7 +429,7 @@ let meta_dump (x : mnode) : string =
     Buffer.add_string b (Printf.sprintf " db=%s id=%s strat=%s keys=[" (esc nm) (dec_of_n d.d_id) (string_of_cl (strat_to_str d.d_strat)));
     let ks = List.sort (fun (a, _) (b, _) -> compare a b) (List.map (fun (k, v) -> (string_of_cl k, v)) d.d_map) in
     Buffer.add_string b (String.concat "," (List.map (fun (k, v) ->
-      Printf.sprintf "%s=%s@%s" (escv k) (escv (string_of_cl v.v_val)) (z_str v.v_ver)) ks));
+      Printf.sprintf "%s=%s@%s/%s" (escv k) (escv (string_of_cl v.v_val)) (z_str v.v_ver) (state_letter v.v_st)) ks));
     Buffer.add_string b "]") dbs;
   Buffer.contents b
 
@@ -898,7 +898,7 @@ let run_net (path : string) =
                     let b = min 6 e in
                     "Error " ^ esc (String.sub t b (e - b)) end
                   else "Other" end end
-        | [("disc" | "drop") as how; sid] ->
+        | [("disc" | "drop" | "reset") as how; sid] ->
           (* drop: the connection is cut without a close handshake; the server's end-of-connection code is the same *)
           let sid = int_of_string sid in
           acting := sid;
